@@ -162,7 +162,9 @@ func c16Check(c c16Case) *kit.Verdict {
 	} else {
 		args = append(args, subnet.String())
 	}
+	jw := startJitterWatch()
 	res := runCmd(cmdRun{Args: args, Seed: c.Seed, World: vwire.NewWorld(sc), Timeout: d + 60*time.Second})
+	lateness := jw.Stop()
 	line := "sx " + strings.Join(args, " ")
 	if res.Hung {
 		return v.Failf("%s did not exit within %v of its start (exit delay %v)\n%s", line, d+60*time.Second, d, clipN(res.Goroutines, 2500))
@@ -218,6 +220,10 @@ func c16Check(c c16Case) *kit.Verdict {
 		if !l.delivered {
 			return v.Failf("%s\nchunk %d: a reply arriving %v after the chunk's last probe (exit delay %v) found the socket closed or its filter refusing it", line, l.sock+1, l.sinceLast, d)
 		}
+		if got[l.key] < 1 && lateness > d/8 {
+			// the reply had at least half the delay to be processed, but the machine stalled for a good part of it
+			return &kit.Verdict{Inconclusive: true}
+		}
 		if got[l.key] < 1 {
 			return v.Failf("%s\nchunk %d: a reply-shaped frame arrived %v after the chunk's last probe, within the exit delay of %v, but was not reported (%s)\nstdout: %s", line, l.sock+1, l.sinceLast, d, l.key, clipN(res.Stdout, 300))
 		}
@@ -230,7 +236,7 @@ func c16Check(c c16Case) *kit.Verdict {
 func TestC16ExitDelay(t *testing.T) {
 	kit.Run(t, kit.Spec[c16Case]{
 		Prop: "C16",
-		Rule: "full packet-scan commands (arp, icmp, udp, tcp syn/fin/null/xmas/--flags; Ethernet and raw-IP; 1..450 single-port ranges => 1..3 chunks; optionally --rate so that the send phase lasts longer than the exit delay; optionally the targets come from a file whose last line is bad, so that a non-fatal error occurs during the scan) with --exit-delay 80..1200 ms; after the last probe of EVERY chunk a reply-shaped frame arrives at u*delay, u in [0,0.5]. Oracle: each late reply is delivered (socket still open) and reported; every chunk's socket stays open >= delay after its last probe; Execute() returns >= delay (one-sided, monotonic) and <= delay+10 s after the last probe; all printed lines are complete JSON. non-trivial: u > 0.05; distinct by case",
+		Rule: "full packet-scan commands (arp, icmp, udp, tcp syn/fin/null/xmas/--flags; Ethernet and raw-IP; 1..450 single-port ranges => 1..3 chunks; optionally --rate so that the send phase lasts longer than the exit delay; optionally the targets come from a file whose last line is bad, so that a non-fatal error occurs during the scan) with --exit-delay 80..1200 ms; after the last probe of EVERY chunk a reply-shaped frame arrives at u*delay, u in [0,0.5]. Oracle: each late reply is delivered (socket still open) and reported (a missing record is discarded as inconclusive when a scheduler-lateness monitor saw a stall of more than delay/8 during the run); every chunk's socket stays open >= delay after its last probe; Execute() returns >= delay (one-sided, monotonic) and <= delay+10 s after the last probe; all printed lines are complete JSON. non-trivial: u > 0.05; distinct by case",
 		Gen: func(t *rapid.T) c16Case {
 			c := c16Case{Cmd: rapid.SampledFrom(c01PacketCmds).Draw(t, "cmd"), Seed: rapid.Int64().Draw(t, "seed")}
 			c.ExitMs = rapid.SampledFrom([]int{80, 120, 200, 300, 500, 1200}).Draw(t, "exit")
